@@ -1341,3 +1341,73 @@ def rule_explicit_hash_before_eq(model: Model, rule_id: str = 'C16-R8') -> RuleR
     else:
         r.ok()
     return r
+
+
+
+# ---------------------------------------------------------------------------- C01 / C02: from_data always converts
+
+
+def rule_from_data_always_converts(model: Model, rule_id: str = 'C01-R5') -> RuleResult:
+    """``from_data(val, ty)`` is ``make_converter(ty, handlers).convert(val)`` on every path that returns: no shortcut hands the input
+    back because it "already is" an instance of the target (``isinstance('abc', Sequence)`` holds; so does ``isinstance(True, int)``)."""
+    r = RuleResult(rule_id, 'from_data returns only what the converter of the requested type produced', floor=1)
+    f = model.func('pane.convert.from_data')
+    cfg = cfg_of(model, f)
+    nz = Normalizer(model, f, cfg, param_map=_pm(f))
+    r.analysed.add(f.qualname)
+    from ..cfg import returned_values
+    for (e, n) in returned_values(cfg):
+        r.instances += 1
+        form = nz.expr(e, n)
+        r.sample({'returns': form[:120]})
+        if re.fullmatch(r'pane\.convert\.make_converter\(\$ty, .*\)\.convert\(\$val\)', form):
+            r.ok()
+        else:
+            r.fail(f.qualname, f"returns {form[:100]}", f.loc(e),
+                   "a value is handed back without going through the converter of the requested type: a str passes for a Sequence, a "
+                   "bool for an int, and the constructor of a dataclass (which converts through from_data) stores it")
+    return r
+
+
+# ---------------------------------------------------------------------------- C03: no rejection hidden in a callback
+
+
+def rule_rejections_are_visible(model: Model, rule_id: str = 'C03-R4') -> RuleResult:
+    """The pass comparison follows direct calls.  A ``raise ParseInterrupt`` inside a nested function or lambda that is stored in a table
+    or passed around (not called by name where it is defined) is a rejection of the fast pass the diagnostic pass cannot mirror."""
+    r = RuleResult(rule_id, 'every `raise ParseInterrupt` sits in a method or in a closure that is called by name in its defining function', floor=10)
+    from ..family import PI
+    for cls in family(model):
+        for g in model.all_functions():
+            top = g
+            while top.parent is not None:
+                top = top.parent
+            if top.cls is not cls or not isinstance(g.node, (ast.FunctionDef, ast.Lambda)):
+                continue
+            cfg = cfg_of(model, g) if isinstance(g.node, ast.FunctionDef) else None
+            raises = []
+            for x in (walk_no_nested(g.node) if isinstance(g.node, ast.FunctionDef) else ast.walk(g.node)):
+                if isinstance(x, ast.Raise) and x.exc is not None:
+                    e = x.exc.func if isinstance(x.exc, ast.Call) else x.exc
+                    if model.resolve(e, g.module, g if isinstance(g.node, ast.FunctionDef) else g.parent) == PI:
+                        raises.append(x)
+            _ = cfg
+            for x in raises:
+                r.instances += 1
+                r.analysed.add(g.qualname)
+                if g.parent is None:
+                    r.ok()
+                    continue
+                par = g.parent
+                called = any(isinstance(c, ast.Call) and isinstance(c.func, ast.Name) and c.func.id == g.name for c in walk_no_nested(par.node))
+                other_uses = any(isinstance(nm, ast.Name) and isinstance(nm.ctx, ast.Load) and nm.id == g.name
+                                 and not (isinstance(getattr(nm, '_parent', None), ast.Call) and getattr(nm, '_parent').func is nm)
+                                 for nm in walk_no_nested(par.node))
+                r.sample({'closure': g.qualname, 'called by name': called, 'also stored / passed': other_uses})
+                if called and not other_uses:
+                    r.ok()
+                else:
+                    r.fail(g.qualname, 'raise ParseInterrupt inside a callback', g.loc(x),
+                           "the fast pass can reject from inside a function that is stored in a table / passed on (the diagnostic pass "
+                           "never goes there): convert() finds no error tree for the rejection and raises the internal RuntimeError")
+    return r
